@@ -257,6 +257,47 @@ Proof using All.
     destruct (Z.eqb r 0); reflexivity. }
   discriminate.
 Qed.
+
+(* the same for validate: the classes without a validate of their own compute and compare; Czechia/Slovakia and
+   Iceland have their own *)
+Definition comps_ok_v (cls : text) (comps : list text) : bool :=
+  if text_eqb cls (tx "czech_republic.DefaultAlgorithm") then
+    match comps with [a; b] => digits a && digits b | _ => false end
+  else if text_eqb cls (tx "iceland.DefaultAlgorithm") then
+    match comps with [h] => digits h && Nat.leb 9 (List.length h) | _ => false end
+  else comps_ok cls comps.
+
+Theorem class_validate_total cls acc al comps expected :
+  national_class e nd alphabet cls acc = Some al -> comps_ok_v cls comps = true ->
+  is_crash (al_validate al comps expected) = false.
+Proof using All.
+  intros Hal Hc. unfold comps_ok_v in Hc.
+  destruct (text_eqb cls (tx "czech_republic.DefaultAlgorithm")) eqn:Ecz.
+  { unfold national_class in Hal.
+    repeat match type of Hal with context [text_eqb cls ?t] => destruct (text_eqb cls t) eqn:? end;
+      try discriminate; inversion Hal; subst al; cbn [al_validate mk];
+      try (apply Proofs.CleanFacts.text_eqb_eq in Ecz; subst cls; discriminate).
+    all: destruct comps as [|a [|b [|c comps]]]; try discriminate; apply andb_true_iff in Hc as [Da Db].
+    all: unfold cz_validate;
+      destruct (weighted_total a 11 (skipn 4 cz_weights) Da) as (d1 & Hd1);
+      destruct (weighted_total b 11 cz_weights Db) as (d2 & Hd2); rewrite Hd1, Hd2; reflexivity. }
+  destruct (text_eqb cls (tx "iceland.DefaultAlgorithm")) eqn:Eis.
+  { unfold national_class in Hal.
+    repeat match type of Hal with context [text_eqb cls ?t] => destruct (text_eqb cls t) eqn:? end;
+      try discriminate; inversion Hal; subst al; cbn [al_validate mk];
+      try (apply Proofs.CleanFacts.text_eqb_eq in Eis; subst cls; discriminate).
+    all: destruct comps as [|h [|h2 comps]]; try discriminate; apply andb_true_iff in Hc as [Dh Lh]; apply Nat.leb_le in Lh.
+    all: unfold is_validate, is_compute;
+      destruct (weighted_total h 11 [3; 2; 7; 6; 5; 4; 3; 2]%Z Dh) as (r & Hr); rewrite Hr; cbn [bind];
+      change 8%Z with (Z.of_nat 8); rewrite (Proofs.NationalCountries.py_index_nth h 8) by lia; reflexivity. }
+  (* the other classes: default validate *)
+  pose proof (class_total cls acc al comps Hal Hc) as Hcomp.
+  unfold national_class in Hal.
+  repeat match type of Hal with context [text_eqb cls ?t] => destruct (text_eqb cls t) eqn:? end;
+    try discriminate; inversion Hal; subst al; cbn [al_validate al_compute mk] in *;
+    unfold default_validate;
+    match goal with |- context [bind ?c _] => destruct c; try discriminate; reflexivity end.
+Qed.
 End Total.
 
 (* ---- from structure classes to characters ---------------------------------------------------------------------- *)
@@ -385,4 +426,24 @@ Proof.
   destruct (text_eqb cls (tx "iceland.DefaultAlgorithm")); [|discriminate].
   destruct kss as [|a [|b kss]]; try discriminate. inversion F as [|? va ? ? Ca F1]; subst. inversion F1; subst.
   exact (conf_digits a va Ca H).
+Qed.
+
+Definition kinds_ok_v (cls : text) (kss : list (list kind)) : bool :=
+  if text_eqb cls (tx "czech_republic.DefaultAlgorithm") then
+    match kss with [a; b] => forallb isKn a && forallb isKn b | _ => false end
+  else if text_eqb cls (tx "iceland.DefaultAlgorithm") then
+    match kss with [h] => forallb isKn h && Nat.leb 9 (List.length h) | _ => false end
+  else kinds_ok cls kss.
+
+Theorem kinds_comps_v cls kss comps : kinds_ok_v cls kss = true -> Forall2 conf kss comps -> comps_ok_v cls comps = true.
+Proof.
+  unfold kinds_ok_v, comps_ok_v. intros H F.
+  destruct (text_eqb cls (tx "czech_republic.DefaultAlgorithm")).
+  { destruct kss as [|a [|b [|c kss]]]; try discriminate.
+    inversion F as [|? va ? ? Ca F1]; subst. inversion F1 as [|? vb ? ? Cb F2]; subst. inversion F2; subst.
+    apply andb_true_iff in H as [H1 H2]. rewrite (conf_digits a va Ca H1), (conf_digits b vb Cb H2). reflexivity. }
+  destruct (text_eqb cls (tx "iceland.DefaultAlgorithm")).
+  { destruct kss as [|a [|b kss]]; try discriminate. inversion F as [|? va ? ? Ca F1]; subst. inversion F1; subst.
+    apply andb_true_iff in H as [H1 H2]. rewrite (conf_digits a va Ca H1), (conf_len a va Ca). exact H2. }
+  exact (kinds_comps cls kss comps H F).
 Qed.
